@@ -39,6 +39,7 @@ pub use watchpoint::WatchpointViewOwned;
 use crate::debugger::Error::Syscall;
 use crate::debugger::address::{Address, GlobalAddress, RelocatedAddress};
 use crate::debugger::breakpoint::{Breakpoint, BreakpointRegistry, BrkptType, UninitBreakpoint};
+use crate::debugger::context::gcx;
 use crate::debugger::debugee::dwarf::DwarfUnwinder;
 use crate::debugger::debugee::dwarf::unwind::Backtrace;
 use crate::debugger::debugee::tracer::TraceContext;
@@ -406,6 +407,9 @@ impl Debugger {
         let process_id = process.pid();
         hooks.on_process_install(process_id, Some(&object));
 
+        // cached function addresses belong to a previous debugee (if any)
+        gcx().with_call_cache(|cc| cc.clear());
+
         let debugee = if process.is_external() {
             Debugee::new_from_external_process(program_path, &process, &object)?
         } else {
@@ -735,6 +739,8 @@ impl Debugger {
         }
 
         self.process = self.process.install()?;
+        // function addresses may change in the new process
+        gcx().with_call_cache(|cc| cc.clear());
 
         let new_debugee = self.debugee.extend(self.process.pid());
         _ = mem::replace(&mut self.debugee, new_debugee);
